@@ -52,6 +52,32 @@ RsizeVerdict(e) ==
   ELSE IF MulGT(e.Z, 10 * e.d, e.r * e.C * e.E + 10 * e.d) THEN "over-risk"
   ELSE "ok"
 
+\* ---- low-price lattice: entry E and stop S in units of 1e-10 (prices 1e-6 .. 1e-4), capital C in whole currency
+\* units (<= 20), risk r in 1e-3 of the capital, quantity q an integer (precision 0)
+\* floor(a * 100 / d) without leaving 31 bits (a <= 2 * 10^9 / 100 is not needed: long division)
+DivScaled(a, d) == LET q1 == a \div d  r1 == a % d IN q1 * 100 + (r1 * 100) \div d
+\* cost: q * E * 1e-10 <= C   <=>   q <= floor(C * 10^10 / E)
+CostFitsP(e) == e.q <= DivScaled(e.C * 100000000, e.E)
+\* risk: q * d * 1e-10 <= r * C * 1e-3   <=>   q <= floor(r * C * 10^7 / d);  a bound above 2 * 10^9 cannot be exceeded
+RiskFitsP(e) == LET d == Abs(e.E - e.S)  a == e.r * e.C * 100000 IN
+                a \div d > 20000000 \/ e.q <= DivScaled(a, d)
+RiskPVerdict(e) ==
+  IF e.exc # "none" THEN "raises:" \o e.exc                          \* the distance is never zero on this lattice
+  ELSE IF ~e.onlat \/ e.q < 0 THEN "not-a-multiple-of-the-precision-step"
+  ELSE IF ~CostFitsP(e) THEN "overspend"
+  ELSE IF ~RiskFitsP(e) THEN "over-risk"
+  ELSE "ok"
+\* estimate_risk: exactly |entry - stop|; R = round(result * 1e12)
+EriskPVerdict(e) == IF e.exc # "none" THEN "raises:" \o e.exc ELSE IF e.R # Abs(e.E - e.S) * 100 THEN "not-the-distance" ELSE "ok"
+\* risk_to_size at low prices: C in {1, 2}, r <= 100, d = risk per unit in 1e-10, Z = size in 1e-4:
+\*   Z * 1e-4 * d / E <= r * C * 1e-3   <=>   Z * d <= 10 * r * C * E   (one logging unit of slack: d)
+RsizePVerdict(e) ==
+  IF e.exc # "none" THEN "raises:" \o e.exc
+  ELSE IF e.Z < 0 THEN "negative-size"
+  ELSE IF e.Z > e.C * 10000 + 1 THEN "size-above-capital"
+  ELSE IF MulGT(e.Z, e.d, 10 * e.r * e.C * e.E + e.d) THEN "over-risk"
+  ELSE "ok"
+
 DecVerdict(e) ==
   LET a == <<e.Ahi, e.Alo>>  b == <<e.Bhi, e.Blo>>
       want == IF e.k = "sum" THEN LimbAdd(a, b) ELSE LimbSub(a, b) IN
@@ -102,6 +128,7 @@ LslpVerdict(e) ==
 EriskVerdict(e) == IF e.exc # "none" THEN "raises:" \o e.exc ELSE IF e.R # Abs(e.E - e.S) THEN "not-the-distance" ELSE "ok"
 
 Verdict(e) == CASE e.k = "size" -> SizeVerdict(e) [] e.k = "risk" -> RiskVerdict(e) [] e.k = "rsize" -> RsizeVerdict(e)
+                [] e.k = "riskp" -> RiskPVerdict(e) [] e.k = "eriskp" -> EriskPVerdict(e) [] e.k = "rsizep" -> RsizePVerdict(e)
                 [] e.k \in {"sum", "sub"} -> DecVerdict(e) [] e.k \in {"rdown", "rqty"} -> RoundVerdict(e)
                 [] e.k \in {"rdownb", "rqtyb"} -> RoundBVerdict(e)
                 [] e.k = "lsl" -> LslVerdict(e) [] e.k = "lslp" -> LslpVerdict(e) [] e.k = "erisk" -> EriskVerdict(e)
